@@ -185,36 +185,50 @@ func TestC01Exact(t *testing.T) {
 }
 
 // A consumer that stalls for longer than the reader's 3 s truncation-check period: the content must still be complete.
+// Once with a plain file and once with a compressed one (the reader's position then counts decompressed bytes, the file's
+// size compressed ones).
 func TestC01SlowConsumer(t *testing.T) {
 	vInit("stdout")
 	dir, _ := os.MkdirTemp("", "c01s-")
 	defer os.RemoveAll(dir)
-	path := filepath.Join(dir, "f.log")
 	var sb strings.Builder
 	for i := 0; i < 3000; i++ {
 		fmt.Fprintf(&sb, "line %05d of a file that takes a while to read %s\n", i, strings.Repeat("=", i%50))
 	}
 	sb.WriteString("LAST LINE WITHOUT NEWLINE")
-	os.WriteFile(path, []byte(sb.String()), 0644)
 	config.Server.MaxLineLength = 1024 * 1024
-	old := os.Stdout
-	r, w, _ := os.Pipe()
-	os.Stdout = w
-	var buf bytes.Buffer
-	done := make(chan struct{})
-	go func() {
-		time.Sleep(3800 * time.Millisecond) // the pipe fills up, the client blocks, the reader waits on its full queues
-		io.Copy(&buf, r)
-		close(done)
-	}()
-	problem := c01Session(path, true, true, 32*1024)
-	os.Stdout = old
-	w.Close()
-	<-done
-	r.Close()
-	res := map[string]interface{}{"problem": problem, "equal": buf.String() == sb.String(), "got_len": buf.Len(), "want_len": sb.Len(),
-		"tail": fmt.Sprintf("%q", buf.String()[c01Max(0, buf.Len()-60):])}
-	vWriteJSON(t, "VERIF_OUT", res)
+	var results []map[string]interface{}
+	for _, variant := range []string{"plain", "gz"} {
+		path := filepath.Join(dir, "f.log")
+		if variant == "gz" {
+			path += ".gz"
+			var zb bytes.Buffer
+			zw := gzip.NewWriter(&zb)
+			zw.Write([]byte(sb.String()))
+			zw.Close()
+			os.WriteFile(path, zb.Bytes(), 0644)
+		} else {
+			os.WriteFile(path, []byte(sb.String()), 0644)
+		}
+		old := os.Stdout
+		r, w, _ := os.Pipe()
+		os.Stdout = w
+		var buf bytes.Buffer
+		done := make(chan struct{})
+		go func() {
+			time.Sleep(3800 * time.Millisecond) // the pipe fills up, the client blocks, the reader waits on its full queues
+			io.Copy(&buf, r)
+			close(done)
+		}()
+		problem := c01Session(path, true, true, 32*1024)
+		os.Stdout = old
+		w.Close()
+		<-done
+		r.Close()
+		results = append(results, map[string]interface{}{"variant": variant, "problem": problem, "equal": buf.String() == sb.String(),
+			"got_len": buf.Len(), "want_len": sb.Len(), "tail": fmt.Sprintf("%q", buf.String()[c01Max(0, buf.Len()-60):])})
+	}
+	vWriteJSON(t, "VERIF_OUT", results)
 }
 
 func c01Max(a, b int) int {
